@@ -201,6 +201,8 @@ def _l2geo(rec, case):
     if gk == 'identity': geo = geometry.identity(kvs); A = np.eye(dim); b = np.zeros(dim)
     elif gk == 'affine':
         A = rng.standard_normal((dim, dim)) * 0.3 + np.eye(dim); b = rng.standard_normal(dim)
+        if rng.random() < 0.35:
+            A[:, int(rng.integers(0, dim))] *= -1.0; gk = 'affine_reflected'         # orientation reversing: det J < 0 is a nonvanishing Jacobian too
         geo = (geometry.unit_square() if dim == 2 else geometry.unit_cube()).apply_matrix(A).translate(b)
     else: geo = geometry.quarter_annulus(); A = b = None
     C = rng.standard_normal(N)
